@@ -85,6 +85,34 @@ Proof.
     | left; split; [vm_compute; reflexivity | simpl; lia] ].
 Qed.
 
+(* The same for EVERY shipped test, estimator and bet, finite or infinite N, with no hypothesis left about the test:
+   non-anticipation is discharged by property C05 (C05_tail = NNM_prefix.hist_tail_all). *)
+Theorem C16_prefix_invariant_shipped :
+  forall (sqrtq : Q -> Q) (draws : nat -> list Q) (quantile : Q -> list nat -> nat),
+  (forall q k n, 0 <= q <= 1 -> quantile q (repeat k (S n)) = k) ->
+  forall (c : cfg) (alpha : Q) (x : list Q) (reps : nat) (q : Q) (n : Z) (k : nat),
+  cN c = Some n ->
+  (1 <= reps)%nat -> 0 <= q <= 1 ->
+  ((first_crossing alpha 0 (hist sqrtq c x) = Some k /\ (k < length x)%nat)
+   \/ (exists d0, d0 <> [] /\ (forall r, (r < reps)%nat -> draws r <> []) /\
+                  first_crossing alpha 0 (firstn (length x) (hist sqrtq c (x ++ d0))) = Some k)) ->
+  (forall r, (r < reps)%nat -> sim_one sqrtq draws c alpha (Z.to_nat n) true x r = k) /\
+  ss_sim sqrtq draws quantile c alpha x reps true q = Ok k.
+Proof. exact prefix_invariant_shipped. Qed.
+Print Assumptions C16_prefix_invariant_shipped.
+(* non-vacuity, second (unclamped) case: ALPHA with shrink_trunc, N = 6, prefix (1, 1, 1): the third entry computed as
+   an interior entry of (1, 1, 1, 0) is the first one <= 3/10; whatever is drawn after the prefix, the estimate is 3 *)
+Example C16_prefix_invariant_shipped_ex : forall draws reps q,
+  (1 <= reps)%nat -> 0 <= q <= 1 -> (forall r, (r < reps)%nat -> draws r <> []) ->
+  ss_sim sqrt_exec draws np_quantile (mkcfg (Some 6%Z) (1 # 2) 1 true (TAlpha (EShrink (3 # 4) (1 # 2) 10 0 (1 # 8))))
+         (3 # 10) [1; 1; 1] reps true q = Ok 3%nat.
+Proof.
+  intros draws reps q Hr Hq Hd.
+  apply (C16_prefix_invariant_shipped sqrt_exec draws np_quantile np_quantile_const _ _ _ reps q 6%Z 3%nat);
+    [ reflexivity | exact Hr | exact Hq
+    | right; exists [0]; split; [discriminate | split; [exact Hd | vm_compute; reflexivity]] ].
+Qed.
+
 (* ---------------------------------------------------------------------------------------------------------------
    4. Comparison / ONEAudit: the constructed population is the error-free overstatement-assorter value everywhere,
       except a one-vote overstatement at every k1-th position and (overriding it) a two-vote overstatement, value 0, at
